@@ -553,6 +553,10 @@ static Subtree ts_parser__lex(
       if (self->has_scanner_error) return NULL_SUBTREE;
       ts_lexer_finish(&self->lexer, &lookahead_end_byte);
 
+      // Whatever the scanner decided - also not to produce a token, so that
+      // the internal lexer runs instead - may depend on the column it asked for.
+      if (self->lexer.did_get_column) called_get_column = true;
+
       if (found_token) {
         external_scanner_state_len = ts_parser__external_scanner_serialize(self);
         external_scanner_state_changed = !ts_external_scanner_state_eq(
@@ -589,7 +593,6 @@ static Subtree ts_parser__lex(
 
       if (found_token) {
         found_external_token = true;
-        called_get_column = self->lexer.did_get_column;
         break;
       }
 
